@@ -185,6 +185,12 @@ func genC19(t *rapid.T) c19Case {
 		c.Lists = append(c.Lists, ListSpec{ID: massID, Text: sb.String(), File: true})
 		c.Queries = append(c.Queries, Q{URL: "http://x.com/adsa6", Typ: "script"}, Q{URL: "http://x.com/q?adsa6", Typ: "image"})
 	}
+	if chance(t, "shared-host-walk", 3) {
+		// the second and third line are loaded through their own alias, the shared name is asked last
+		for _, h := range []string{"alias2.example", "alias3.example", "shared.example", "alias1.example", "shared.example"} {
+			c.Queries = append(c.Queries, Q{Host: true, Hostname: h})
+		}
+	}
 	if chance(t, "domain-walk", 3) {
 		// the second query walks from a bucket loaded by the first one into one that is not loaded yet
 		c.Queries = append(c.Queries, Q{URL: "http://x.com/ab", Src: "http://example.org/", Typ: "script"},
